@@ -43,10 +43,12 @@ META = {
             "solver: its efc_force is not an output of mj_constraintUpdate and its qacc is computed from its forces, so stationarity "
             "holds by construction) is outside the theorem: it is judged where it left its loop through its own exit test, at a looser "
             "tolerance. 'The forward solver has converged' is decided from the solver's outputs: scaled stationarity residual "
-            "|M qacc - qfrc_smooth - qfrc_constraint| / (meaninertia nv) < 1e-9 (Newton, CG). Two genuine deviations of the tree are "
-            "reported under stable keys: c09:pgs-elliptic-forward-inverse-mismatch (PGS with elliptic cones stops off the optimum; "
-            "same root cause as c10:pgs-elliptic-converges-off-optimum) and c09:invdiscrete-ignores-disabled-damper (mj_discreteAcc "
-            "tests mjDSBL_EULERDAMP only, mj_EulerSkip also mjDSBL_DAMPER).",
+            "|M qacc - qfrc_smooth - qfrc_constraint| / (meaninertia nv) < 1e-9 (Newton, CG). One genuine deviation of the tree is "
+            "reported under a stable key, only for PGS with elliptic cones: c09:pgs-elliptic-forward-inverse-mismatch (PGS stops off "
+            "the optimum; same root cause as c10:pgs-elliptic-converges-off-optimum). c09:invdiscrete-ignores-disabled-damper "
+            "(mj_discreteAcc ignored mjDSBL_DAMPER; fixed in /repo by 12e0c5659, the model's branch condition eulerDampActive now has "
+            "both flags) stays as a silent regression probe with a directed input (damped two-link pendulum, Euler + invdiscrete + "
+            "mjDSBL_DAMPER) plus the random mjDSBL_DAMPER configurations and the dacce tie with the flag set.",
 }
 
 THEOREMS = [
@@ -56,6 +58,7 @@ THEOREMS = [
     "MjProof.C09.both_reach_constraintUpdate",
     "MjProof.C09.discreteAcc_recovers",
     "MjProof.C09.invdiscrete_euler",
+    "MjProof.C09.invdiscrete_euler_flags",
     "MjProof.C09.invdiscrete_implicit",
 ]
 
@@ -91,10 +94,38 @@ def fmt(v):
     return " ".join(repr(float(x)) for x in v)
 
 
+# directed input of the regression probe DAMPER_KEY (defect fixed in /repo by 12e0c5659): a damped two-link pendulum,
+# Euler + mjENBL_INVDISCRETE + mjDSBL_DAMPER.  Before the fix qfrc_inverse was off by ~1e-2 of the force scale here.
+DAMPER_PROBE = ["option timestep 0.002", "option integrator %d" % E("mjINT_EULER"), "option gravity 0 0 -9.81",
+                "body 1 0", "name 1 b1", "set 1 pos 0 0 1", "joint 2 1", "set 2 type %d" % E("mjJNT_HINGE"), "set 2 axis 0 1 0",
+                "set 2 damping 2.0", "geom 3 1", "set 3 type %d" % E("mjGEOM_CAPSULE"), "set 3 size 0.05 0.2", "set 3 pos 0.2 0 0",
+                "set 3 contype 0", "set 3 conaffinity 0",
+                "body 4 1", "name 4 b2", "set 4 pos 0.4 0 0", "joint 5 4", "set 5 type %d" % E("mjJNT_HINGE"), "set 5 axis 0 1 0",
+                "set 5 damping 0.5", "set 5 limited %d" % E("mjLIMITED_TRUE"), "set 5 range -0.5 0.5",
+                "geom 6 4", "set 6 type %d" % E("mjGEOM_CAPSULE"), "set 6 size 0.04 0.15", "set 6 pos 0.15 0 0",
+                "set 6 contype 0", "set 6 conaffinity 0"]
+DAMPER_PROBE_STATE = ["state qpos 0.3 0.7", "state qvel 1.5 -2.0", "state warm 0 0"]
+
+
 def gen_script(ctx, nmodels):
     rng = ctx.rng
     script, meta = [], []
     INTEG = {"Euler": E("mjINT_EULER"), "implicit": E("mjINT_IMPLICIT"), "implicitfast": E("mjINT_IMPLICITFAST")}
+    # regression probe first
+    script += ["model"] + DAMPER_PROBE + ["end"]
+    meta.append(("model", {"model": -1, "lines": DAMPER_PROBE}))
+    pinfo = {"model": -1, "state": 0, "set": DAMPER_PROBE_STATE, "settle": 0}
+    for l in DAMPER_PROBE_STATE:
+        script.append(l)
+        meta.append(("state", pinfo))
+    script.append("dacc %d %d" % (INTEG["Euler"], E("mjDSBL_DAMPER")))
+    meta.append(("dacc", dict(pinfo, op=script[-1])))
+    script.append("settle 0")
+    meta.append(("settle", pinfo))
+    for dis in (E("mjDSBL_DAMPER"), 0, E("mjDSBL_EULERDAMP")):
+        op = "fwdinv %d %d %d 1 %d 1 %d %d %r" % (NEWTON, E("mjCONE_PYRAMIDAL"), E("mjJAC_DENSE"), INTEG["Euler"], dis, ITER[NEWTON], TOL)
+        script.append(op)
+        meta.append(("fwdinv", dict(pinfo, op=op, solver=NEWTON, discrete=1, integ=INTEG["Euler"], cone=E("mjCONE_PYRAMIDAL"), dis=dis)))
     for mi in range(nmodels):
         mdl = ModelGen(rng, PROFILE).make()
         if mdl.nv == 0 or mdl.nv > 26:
@@ -118,9 +149,9 @@ def gen_script(ctx, nmodels):
                 script.append(l)
                 meta.append(("state", info))
             # the dacc tie uses the random `warm` vector as discrete acceleration: before settle overwrites it
-            for integ in ("Euler", "implicit"):
-                script.append("dacc %d" % INTEG[integ])
-                meta.append(("dacc", dict(info, op="dacc %d" % INTEG[integ])))
+            for integ, dis in (("Euler", 0), ("implicit", 0), ("Euler", rng.choice((E("mjDSBL_DAMPER"), E("mjDSBL_EULERDAMP"))))):
+                script.append("dacc %d %d" % (INTEG[integ], dis))
+                meta.append(("dacc", dict(info, op="dacc %d %d" % (INTEG[integ], dis))))
             script.append("settle %d" % nsettle)
             meta.append(("settle", info))
             cone = rng.choice((E("mjCONE_PYRAMIDAL"), E("mjCONE_ELLIPTIC")))
@@ -258,9 +289,9 @@ def run(ctx):
         if damper_off:
             stats["max_rel_damper_off"] = max(stats.get("max_rel_damper_off", 0.0), rq)
         if damper_off and rq > rel:
-            fail(DAMPER_KEY, "Euler + mjENBL_INVDISCRETE + mjDSBL_DAMPER: mj_EulerSkip skips the implicit damping (it tests EULERDAMP and DAMPER) but "
-                 "mj_discreteAcc still applies qfrc = (M + h*diag(B))*qacc (it tests EULERDAMP only): qfrc_inverse differs from the applied forces "
-                 "by %r relative to the force scale %r (%s converged)" % (rq, fsc, name), rp)
+            fail(DAMPER_KEY, "REGRESSION of the defect fixed by 12e0c5659: Euler + mjENBL_INVDISCRETE + mjDSBL_DAMPER: mj_EulerSkip skips the "
+                 "implicit damping (it tests EULERDAMP and DAMPER) but mj_discreteAcc applies qfrc = (M + h*diag(B))*qacc: qfrc_inverse "
+                 "differs from the applied forces by %r relative to the force scale %r (%s converged)" % (rq, fsc, name), rp)
             continue
         if rq > rel:
             fail("c09:qfrc-inverse-mismatch" + ("-discrete" if d["discrete"] else ""),
